@@ -62,6 +62,14 @@ class Tmpl(object):
         return Tmpl(L.ralt(*[t.rx for t in items]), raw, lossy, notes)
 
 
+def p_open(i):
+    return L.SYM_BASE + 0x800 + 2 * i
+
+
+def p_close(i):
+    return L.SYM_BASE + 0x800 + 2 * i + 1
+
+
 def lit(s):
     return ('str', Tmpl(L.rlit(s)))
 
@@ -77,6 +85,8 @@ class Interp(object):
         self.depth = 0
         self.version = None
         self.grid_as_nt = False
+        self.mark = False           # wrap the payload of each top-level conversion in marker symbols
+        self.n_marks = 0
 
     # ------------------------------------------------------------- helpers
     def pipeline(self, fname):
@@ -326,7 +336,12 @@ class Interp(object):
                 out = out.cat(Tmpl(S.rx_of(r'-?[0-9]+\.[0-9]{%d}|inf|-inf|nan' % n if n else r'-?[0-9]+|inf|-inf|nan'),
                                    lossy=('%%.%df' % n,)))
                 continue
-            out = out.cat(self.to_str(a, conv, node))
+            piece = self.to_str(a, conv, node)
+            if self.mark and self.depth == 1:
+                k = self.n_marks
+                self.n_marks += 1
+                piece = Tmpl(L.rcat(L.rsym(p_open(k)), piece.rx, L.rsym(p_close(k))), piece.raw, piece.lossy, piece.notes)
+            out = out.cat(piece)
         out = out.cat(Tmpl(L.rlit(fs[pos:])))
         if i != len(args):
             raise Unsupported('format %r: %d arguments for %d conversions' % (fs, len(args), i))
